@@ -270,7 +270,7 @@ func runC05(w *W) {
 		// random bytes, several alphabets and lengths
 		nr := 60000
 		if th {
-			nr = 1500000
+			nr = 5000000
 		}
 		for k := 0; k < nr; k++ {
 			rr := r.Split()
@@ -300,7 +300,7 @@ func runC05(w *W) {
 		// truncations of valid documents: every length (small), sampled (large)
 		nd := 150
 		if th {
-			nd = 2500
+			nd = 8000
 		}
 		for k := 0; k < nd; k++ {
 			rr := r.Split()
